@@ -408,14 +408,21 @@ def make_body(case):
         spec = spec + ['save', save, path]
 
     def body():
-        if path and os.path.exists(path):
-            os.remove(path)
+        if path and not os.path.exists(path):
+            # the target of 'save' exists already and has content (a leftover
+            # of an earlier run; from the second execution on, the file the
+            # previous execution wrote): it must be replaced, not extended
+            with open(path, 'w') as f:
+                f.write('c an older file\n3\n1 : 2 0\n2 : 1 0\n3 : 0\n')
         G = make_graph_from_spec(gt, list(spec))
         d = describe(G)
         d['name_is_str'] = isinstance(getattr(G, 'name', None), str)
         if path:
-            H = readGraph(path, gt, save)
-            d['saved'] = describe(H)
+            try:
+                H = readGraph(path, gt, save)
+                d['saved'] = describe(H)
+            except Exception as e:      # noqa: reported through the comparison
+                d['saved'] = {'unreadable': '%s: %s' % (type(e).__name__, str(e)[:80])}
         return d
     return body
 
